@@ -153,6 +153,13 @@ fn serve(inner: Arc<Inner>, mut stream: TcpStream, conn: u64) {
         let expects_continue = get("expect").map(|v| v.eq_ignore_ascii_case("100-continue")).unwrap_or(false);
         buf.drain(..head_end);
 
+        if inner.is_foreign(&path) {
+            // a stale emitter of an earlier case whose collector had this port: not our request
+            let _ = respond(&mut stream, 404, true, false);
+            hang_up(&inner, &stream);
+            return;
+        }
+
         let (idx, decision, _signal) = inner.begin(Head {
             conn,
             transport: Transport::Http1,
